@@ -1,7 +1,8 @@
 (* Props/C18.v — the theorems that decide property C18.  Statements only. *)
 From CKB Require Import Indexer.Indexer Indexer.Query Indexer.Canon Indexer.SameAnswers
   Indexer.ScriptMatch Indexer.Paging Indexer.QueryProofs Indexer.IndexerExamples
-  Indexer.IndexerInv Indexer.IndexerProofs Indexer.InvEquiv.
+  Indexer.IndexerInv Indexer.IndexerProofs Indexer.InvEquiv Indexer.Rich Indexer.RichProofs
+  Indexer.RichPaging Indexer.RichPagingProofs.
 From Coq Require Import Permutation Sorted.
 
 
@@ -193,6 +194,142 @@ Theorem c18_example_prune_fires :
     /\ length (ix_store s6) = 62 /\ length (ix_store s7) = 59.
 Proof. exact example_prune_fires. Qed.
 
+(* ======================================================================== *)
+(* the rich indexer (util/rich-indexer, SQL).  Its rows carry script IDS; the
+   scripts live in the table `script`, a row of which is inserted on first use
+   and deleted by rollback when no remaining output references its id as lock
+   OR type script (reference counting); every query joins the output rows with
+   that table.  [ops] is any sequence of appends and rollbacks following a valid
+   chain through reorganisations of any depth (rops_ok: every appended block is
+   a consistent continuation; any block may be rolled back, down to the empty
+   index).  [all_cells ch] is the chain's cell history: every output created on
+   the main chain with where it was created and where, if at all, it was consumed. *)
+
+(* rich_eq_filter: every answer — tip, get_cells (any search mode incl.
+   partial, filter, order, limit), get_cells_capacity, get_transactions (every
+   row of the list) — is the same query put directly to the cell history of the
+   main chain *)
+Theorem c18_rich_eq_filter : forall ops s,
+  rops_ok rs_empty ops = true -> rrun rs_empty ops = Some s ->
+  forall q, rich_run (rs_db s) q = spec_run (rs_chain s) q.
+Proof. exact rich_eq_filter_all. Qed.
+
+(* the table kept by reference counting: in every reachable state the block
+   rows are the main chain, the ids of `script` are unique, and every output row
+   read through the table (ids replaced by the scripts they are the keys of) is
+   the corresponding cell of the chain's history — no id dangles *)
+Theorem c18_rich_rows_resolve : forall ops s,
+  rops_ok rs_empty ops = true -> rrun rs_empty ops = Some s ->
+  d_blocks (rs_db s) = map (fun b => (b_num b, b_id b)) (rs_chain s) /\
+  NoDup (map fst (d_scripts (rs_db s))) /\
+  Res (d_scripts (rs_db s)) (d_cells (rs_db s)) (all_cells (rs_chain s)).
+Proof. exact rich_rows_resolve. Qed.
+
+(* what the cell history is, in the terms of the first part of this file: its
+   unconsumed cells are the live-cell set of the main chain (same order), its
+   rows (one per script where a cell was created, one where it was consumed) are
+   the transaction history of the main chain *)
+Theorem c18_rich_cell_history : forall ops s,
+  rops_ok rs_empty ops = true -> rrun rs_empty ops = Some s ->
+  a_view (all_cells (rs_chain s)) = live (rs_chain s) /\
+  Permutation (a_rows (all_cells (rs_chain s))) (txs (rs_chain s)).
+Proof. exact rich_cell_history. Qed.
+
+(* hence: tip, get_cells and get_cells_capacity are the direct filter over the
+   live-cell set of the main chain, in chain order … *)
+Theorem c18_rich_cells_eq_live_filter : forall ops s,
+  rops_ok rs_empty ops = true -> rrun rs_empty ops = Some s ->
+  rtip (rs_db s) = chain_tip (rs_chain s) /\
+  forall q, rich_get_cells (rs_db s) q = q_cells (live_joined (live (rs_chain s)) q) q /\
+            rich_get_capacity (rs_db s) q = q_capacity (live_joined (live (rs_chain s)) q) (chain_tip (rs_chain s)) q.
+Proof. exact rich_cells_eq_live_filter. Qed.
+
+(* … and the transaction list of a search by script (any mode, block_range) is
+   the direct filter over the transaction history of the main chain, listed by
+   (block number, tx index, input before output, io index).  (With one of the
+   rich indexer's cell filters — data, capacity, other script — the list is the
+   filter over the cell history: c18_rich_eq_filter.) *)
+Theorem c18_rich_txs_eq_history : forall ops s,
+  rops_ok rs_empty ops = true -> rrun rs_empty ops = Some s ->
+  forall q, no_cell_filter (rq_f q) = true ->
+    Permutation (q_tx_rows (joined (rs_db s) q) q) (history_rows (rs_chain s) q) /\
+    rich_get_txs (rs_db s) q = sort_by row_key (q_tx_rows (joined (rs_db s) q) q).
+Proof. exact rich_txs_eq_history. Qed.
+
+(* rolling back the last appended block restores every answer *)
+Theorem c18_rich_rollback_inverts_append : forall ops s b s1 s2,
+  rops_ok rs_empty ops = true -> rrun rs_empty ops = Some s ->
+  block_ok (rs_chain s) b = true ->
+  rstep s (OAppend b) = Some s1 -> rstep s1 ORollback = Some s2 ->
+  rs_chain s2 = rs_chain s /\ forall q, rich_run (rs_db s2) q = rich_run (rs_db s) q.
+Proof. exact rich_rollback_inverts_append_all. Qed.
+
+(* a valid append is never refused (no missing output row, no second `input`
+   row for one output) *)
+Theorem c18_rich_valid_append_succeeds : forall ops s b,
+  rops_ok rs_empty ops = true -> rrun rs_empty ops = Some s ->
+  block_ok (rs_chain s) b = true -> exists s1, rstep s (OAppend b) = Some s1.
+Proof. exact rich_valid_append_succeeds. Qed.
+
+(* pagination of the ungrouped transaction list (limit + cursor walked to the
+   end): a client that follows last_cursor until a page is shorter than the
+   limit receives exactly the ordered answer, every row once — for every
+   ordered answer and every limit > 0, under the cursor rule of fix 9118212
+   (the offset continues from the incoming cursor) … *)
+Theorem c18_rich_walk_complete : forall (X : Type) (rows : list (N * X)) limit,
+  id_sorted rows -> (0 < limit)%nat -> walk FixedRule rows (S (length rows)) None limit = rows.
+Proof. intros X rows limit. exact (walk_fixed_complete rows limit). Qed.
+(* … and not under the rule before the fix (offset counted from zero on every
+   page): one transaction with two rows and limit 1 — the second row is repeated
+   for ever and the next transaction is never reached *)
+Theorem c18_rich_walk_old_refuted :
+  id_sorted w_rows /\ walk OldRule w_rows (S (length w_rows)) None 1 = [(1, 10); (1, 11); (1, 11); (1, 11)]%N
+  /\ walk OldRule w_rows (S (length w_rows)) None 1 <> w_rows
+  /\ forall fuel, ~ In (2, 12)%N (walk OldRule w_rows fuel None 1).
+Proof. exact walk_old_refuted. Qed.
+
+(* Refuted with a witness: the garbage collection that counts lock references
+   only (script_exists_in_output never looking at its second query).  Rolling
+   back block 1 of a valid 2-block history deletes the row of a type script
+   that a live cell of block 0 carries: get_cells / get_transactions /
+   get_cells_capacity by that type script answer [] / [] / null, get_cells by the
+   cell's lock shows it without a type script. *)
+Theorem c18_rich_gc_ignoring_type_refs_refuted :
+  exists (ops : list iop) (s : rstate) (c : lcell),
+    rops_ok_gen GcLockOnly rs_empty ops = true /\ rrun_gen GcLockOnly rs_empty ops = Some s /\
+    In c (live (rs_chain s)) /\ o_type (lc_out c) = Some w_token /\
+    rich_run (rs_db s) (RQCells w_q_token) = RACells [] /\
+    rich_run (rs_db s) (RQTxs w_q_token) = RATxs [] /\
+    rich_run (rs_db s) (RQCap w_q_token) = RACap None /\
+    rich_run (rs_db s) (RQCells w_q_alice) = RACells [(1, 0, 0, 0, 1000, Some w_alice, None, [1])]%N /\
+    spec_run (rs_chain s) (RQCells w_q_token) = RACells [(1, 0, 0, 0, 1000, Some w_alice, Some w_token, [1])]%N.
+Proof. exact rich_gc_ignoring_type_refs_refuted. Qed.
+
+(* non-vacuity: a history with a reorganisation, a cell created and consumed in
+   one block, a type script shared across blocks and never used as a lock *)
+Theorem c18_rich_example_ops_ok : rops_ok rs_empty w_ops = true.
+Proof. exact rich_example_ops_ok. Qed.
+Theorem c18_rich_example_nontrivial :
+  exists s, rrun rs_empty w_ops = Some s
+    /\ rich_run (rs_db s) (RQCells w_q_token) =
+         RACells [(6, 0, 1, 1, 1000, Some w_bob, Some w_token, [1]); (3, 0, 2, 1, 2000, Some w_bob, Some w_token, [2])]%N
+    /\ rich_run (rs_db s) (RQTxs w_q_token) =
+         RATxs [(1, 0, 0, 0, true); (6, 1, 1, 0, false); (6, 1, 1, 0, true); (3, 2, 1, 0, true)]%N
+    /\ rich_run (rs_db s) (RQCap w_q_token) = RACap (Some (3000, 2, 202))%N
+    /\ rich_run (rs_db s) (RQCells w_q_bobs) = RACells [(3, 0, 2, 1, 2000, Some w_bob, Some w_token, [2])]%N
+    /\ length (d_scripts (rs_db s)) = 5%nat.
+Proof. exact rich_example_nontrivial. Qed.
+(* the hypotheses of c18_rich_rollback_inverts_append are met, by a block that
+   brings new scripts and shares a type script with an older live cell *)
+Theorem c18_rich_example_rollback_hyps :
+  exists s s1 s2, rrun rs_empty [OAppend w_b0] = Some s
+    /\ rops_ok rs_empty [OAppend w_b0] = true
+    /\ block_ok (rs_chain s) w_b1 = true
+    /\ rstep s (OAppend w_b1) = Some s1 /\ rstep s1 ORollback = Some s2
+    /\ length (d_scripts (rs_db s)) = 3%nat /\ length (d_scripts (rs_db s1)) = 5%nat
+    /\ rs_db s2 = rs_db s.
+Proof. exact rich_example_rollback_hyps. Qed.
+
 Redirect "out/C18.c18_indexer_eq_filter" Print Assumptions c18_indexer_eq_filter.
 Redirect "out/C18.c18_canon_store_is_replay" Print Assumptions c18_canon_store_is_replay.
 Redirect "out/C18.c18_indexer_eq_filter_rows" Print Assumptions c18_indexer_eq_filter_rows.
@@ -217,3 +354,16 @@ Redirect "out/C18.c18_cells_page" Print Assumptions c18_cells_page.
 Redirect "out/C18.c18_capacity_old_refuted" Print Assumptions c18_capacity_old_refuted.
 Redirect "out/C18.c18_example_ops_ok" Print Assumptions c18_example_ops_ok.
 Redirect "out/C18.c18_example_nontrivial" Print Assumptions c18_example_nontrivial.
+Redirect "out/C18.c18_rich_eq_filter" Print Assumptions c18_rich_eq_filter.
+Redirect "out/C18.c18_rich_rows_resolve" Print Assumptions c18_rich_rows_resolve.
+Redirect "out/C18.c18_rich_cell_history" Print Assumptions c18_rich_cell_history.
+Redirect "out/C18.c18_rich_cells_eq_live_filter" Print Assumptions c18_rich_cells_eq_live_filter.
+Redirect "out/C18.c18_rich_txs_eq_history" Print Assumptions c18_rich_txs_eq_history.
+Redirect "out/C18.c18_rich_rollback_inverts_append" Print Assumptions c18_rich_rollback_inverts_append.
+Redirect "out/C18.c18_rich_valid_append_succeeds" Print Assumptions c18_rich_valid_append_succeeds.
+Redirect "out/C18.c18_rich_gc_ignoring_type_refs_refuted" Print Assumptions c18_rich_gc_ignoring_type_refs_refuted.
+Redirect "out/C18.c18_rich_example_ops_ok" Print Assumptions c18_rich_example_ops_ok.
+Redirect "out/C18.c18_rich_example_nontrivial" Print Assumptions c18_rich_example_nontrivial.
+Redirect "out/C18.c18_rich_example_rollback_hyps" Print Assumptions c18_rich_example_rollback_hyps.
+Redirect "out/C18.c18_rich_walk_complete" Print Assumptions c18_rich_walk_complete.
+Redirect "out/C18.c18_rich_walk_old_refuted" Print Assumptions c18_rich_walk_old_refuted.
